@@ -455,6 +455,38 @@ def check(ctx):
         after = blk[blk.index(tr) + 1:] if tr in blk else []
         ctx.check(merged_ok and after and norm(after[0]) == "raise error", "C10.R7", f"{om.qualname}:mock-merge", mc, "errors of the validators run on the mock are not merged into the structural error and raised", om, mc, detail="error = merge_errors(error, err); raise error")
 
+    # ---------------- R8: every source of validators reaches the compiled method
+    ctx.rule("C10.R8", "validators registered on the type, on its generic origin, in Annotated metadata, on a field or passed per call are merged into the factory that is used", floor=5)
+    kinds = {"type": "get_validators(tp)", "origin": "get_validators(get_origin(tp))", "annotated": "VALIDATORS_METADATA", "field": "f.validators", "call": "map(Validator, validators)"}
+    seen8 = {}
+    for fi in model.functions.values():
+        if fi.module.name != "apischema.deserialization":
+            continue
+        pm8 = {c: p for p in ast.walk(fi.node) for c in ast.iter_child_nodes(p)}
+        for n in walk_no_nested(fi.node, include_lambda=True):
+            t = norm(n) if isinstance(n, (ast.Call, ast.Attribute, ast.Name)) else None
+            for kind, frag in kinds.items():
+                if t is None or (t != frag and not (kind == "annotated" and isinstance(n, ast.Name) and t == frag)):
+                    continue
+                # climb to the enclosing merge call
+                p, mg = pm8.get(n), None
+                while p is not None and not isinstance(p, ast.stmt):
+                    if isinstance(p, ast.Call) and isinstance(p.func, ast.Attribute) and p.func.attr == "merge":
+                        mg = p
+                        break
+                    p = pm8.get(p)
+                kept = False
+                if mg is not None:
+                    q = pm8.get(mg)
+                    while isinstance(q, (ast.Attribute, ast.Call)):
+                        q = pm8.get(q)
+                    kept = isinstance(q, (ast.Assign, ast.AnnAssign, ast.Return, ast.ListComp, ast.List, ast.Tuple, ast.GeneratorExp, ast.comprehension, ast.keyword))
+                seen8.setdefault(kind, []).append((fi, n, mg is not None and kept))
+    for kind, frag in kinds.items():
+        sites = seen8.get(kind, [])
+        ctx.check(any(ok for _, _, ok in sites), "C10.R8", f"validators:{kind}", sites[0][1] if sites else None,
+                  f"validators from `{frag}` never reach a `.merge(...)` whose result is kept: they are registered but never run", sites[0][0] if sites else None, sites[0][1] if sites else None, detail=f"{len(sites)} site(s)")
+
 
 def fixtures(ctx):
     src = "def f(xs, i=0):\n    for i, x in enumerate(xs):\n        f(xs[i:])\n        f(xs[i + 1:])\n"
@@ -488,6 +520,8 @@ def mutants(mb):
     mb.add_text("object-real-run-no-init", M, "            return validate(obj, validators, init, aliaser=self.aliaser)", "            return validate(obj, validators, aliaser=self.aliaser)", "C10.R7", "real-args")
     mb.add_text("neg-invalid-fields-renamed", M, "                invalid_fields = self.post_init_modified\n                if field_errors:\n                    invalid_fields = invalid_fields | field_errors.keys()\n                try:\n                    validate(\n                        ValidatorMock(self.constructor.cls, values),\n                        [\n                            v\n                            for v in validators\n                            if v.dependencies.isdisjoint(invalid_fields)\n",
                 "                failed = self.post_init_modified\n                if field_errors:\n                    failed = failed | field_errors.keys()\n                try:\n                    validate(\n                        ValidatorMock(self.constructor.cls, values),\n                        [\n                            v\n                            for v in validators\n                            if v.dependencies.isdisjoint(failed)\n", negative=True)
+    mb.add_text("type-validators-not-merged", "apischema/deserialization/__init__.py", "            factory = factory.merge(get_constraints(get_schema(tp)), get_validators(tp))\n", "            factory = factory.merge(get_constraints(get_schema(tp)), ())\n", "C10.R8", "validators:type")
+    mb.add_text("field-validators-not-merged", "apischema/deserialization/__init__.py", "                get_constraints(f.schema), f.validators\n", "                get_constraints(f.schema), ()\n", "C10.R8", "validators:field")
     mb.add_text("validators-i", V, "validators[i + 1 :]", "validators[i:]", "C10.R1", "validate")
     mb.add_text("rec-build-no-slice", E, "_rec_build_error(path[1:], msg)", "_rec_build_error(path[0:], msg)", "C10.R1", "_rec_build_error")
     mb.add_text("apply-aliaser-self", E, "        child2 = apply_aliaser(child, aliaser)\n", "        child2 = apply_aliaser(error, aliaser)\n", "C10.R1", "apply_aliaser")
